@@ -435,13 +435,15 @@ func runC08(sc *c08scenario) c08obs {
 	if sc.retry >= 20*time.Millisecond && sc.retry <= 200*time.Millisecond && (len(sc.reply)+len(sc.garbage)+sc.k)%3 == 0 {
 		dialDelay = sc.retry * 6 / 10
 	}
-	var callStart atomic.Int64
+	var callStarted atomic.Bool
+	var start time.Time
 	client.Dialer.Control = func(network, address string, c syscall.RawConn) error {
 		if dialDelay > 0 {
 			time.Sleep(dialDelay)
 		}
-		if st := callStart.Load(); st != 0 {
-			ctrlAt.Store(time.Now().UnixNano() - st)
+		if callStarted.Load() {
+			// (the same monotonic clock as the arrival instants and the instant of the return)
+			ctrlAt.Store(int64(time.Since(start)))
 		}
 		return nil
 	}
@@ -481,11 +483,11 @@ func runC08(sc *c08scenario) c08obs {
 	done := make(chan res, 1)
 	stop := make(chan struct{}) // closed when Exchange has returned (or was given up)
 	var cancelMu sync.Mutex
-	start := time.Now()
+	start = time.Now()
 	if sc.cancel == "pre" || sc.cancel == "predeadline" {
 		cancelTime = start
 	}
-	callStart.Store(start.UnixNano())
+	callStarted.Store(true)
 	var fdAtReturn atomic.Int64
 	fdAtReturn.Store(-1)
 	c08Go(func() {
